@@ -38,3 +38,19 @@ Proof.
     + intros _. right. right. left. reflexivity.
   - split; [|intros (l & rm & rs & rt & H); discriminate]. cbn. intros [H|[H|[H|[]]]]; try discriminate; destruct t; discriminate.
 Qed.
+
+(* ---- the atomicity assumption of Server/Counters.v, checked against the source ----
+   METRICS_ATOMIC_OPS (regenerated from metrics.rs on every run) lists every write / read-modify-write on an atomic in the
+   non-test part of the file as (receiver, "op(first argument)").  The counter model lets a recorder step be ONE atomic
+   increment of one counter; that is what the source does exactly when every listed operation is `fetch_add(1)`. *)
+Definition op_is_increment (p : string * string) : bool := String.eqb (snd p) "fetch_add(1)".
+Definition counters_rmw_only : bool :=
+  forallb op_is_increment METRICS_ATOMIC_OPS && negb (Nat.eqb (List.length METRICS_ATOMIC_OPS) 0).
+Lemma counters_rmw_only_ok : counters_rmw_only = true.
+Proof. vm_compute. reflexivity. Qed.
+Lemma counters_only_incremented : forall p, In p METRICS_ATOMIC_OPS -> snd p = "fetch_add(1)"%string.
+Proof.
+  intros p Hp. pose proof counters_rmw_only_ok as H. unfold counters_rmw_only in H.
+  apply andb_prop in H. destruct H as [H _]. rewrite forallb_forall in H. specialize (H p Hp).
+  unfold op_is_increment in H. apply String.eqb_eq in H. exact H.
+Qed.
